@@ -317,6 +317,13 @@ def sweep_session(pt, base, private: bool, tier, rng):
             s.emit(("symbol", t, b), ("raise",))
             s.emit(("isotope", t, b), ("raise",))
         s.emit(("name", t, name.capitalize()), ("raise",))
+        # a name is not a symbol, and a symbol is not a name
+        if name not in s.syms:
+            s.emit(("symbol", t, name), ("raise",))
+            s.emit(("isotope", t, name), ("raise",))
+            s.emit(("isotope", t, "1-" + name), ("raise",))
+        if sym not in s.names:
+            s.emit(("name", t, sym), ("raise",))
         o = s.emit(("isotopes", eh)); check_lists(s, ("isotopes", eh), o)
         isos = list(o[1]) if o[0] == "nats" else []
         o = s.emit(("iteriso", eh)); check_lists(s, ("iteriso", eh), o)
